@@ -71,7 +71,7 @@ type WritePlan struct {
 type ReadPlan struct {
 	Mode     string `json:"mode"`      // read | writeto
 	Bufs     []int  `json:"bufs"`      // Read buffer sizes, used cyclically; -1 = larger than the payload
-	Pre      int    `json:"pre"`       // snappy only: bytes consumed with Read before WriteTo
+	Pre      int    `json:"pre"`       // bytes consumed with Read before WriteTo
 	Src      string `json:"src"`       // reader (*bytes.Reader) | buffer (*bytes.Buffer) | chunk | eofdata
 	SrcChunk int    `json:"src_chunk"` // chunk/eofdata: bytes per Read of the compressed source (0 = all)
 }
@@ -1281,7 +1281,9 @@ func normalize(c Case) Case {
 		if s.W.Pre >= s.Payload.Len {
 			s.W.Pre = s.Payload.Len - 1
 		}
-		if c.Codec.Name != "snappy" || s.R.Pre < 0 || s.R.Mode != "writeto" {
+		// Read followed by WriteTo (what io.Copy does with a reader that was peeked into) on every codec: a reader that
+		// offers WriteTo has to deliver the rest of the stream through it
+		if s.R.Pre < 0 || s.R.Mode != "writeto" {
 			s.R.Pre = 0
 		}
 		if s.R.Pre >= s.Payload.Len {
@@ -1667,7 +1669,7 @@ func genStream(t *rapid.T, label string, cs CodecSpec, huge bool) Stream {
 	s.R.Mode = "read"
 	if rapid.IntRange(0, 4).Draw(t, label+"_rmode") == 4 {
 		s.R.Mode = "writeto"
-		if cs.Name == "snappy" && rapid.Bool().Draw(t, label+"_rpre?") {
+		if rapid.Bool().Draw(t, label+"_rpre?") {
 			s.R.Pre = rapid.SampledFrom([]int{1, 100, 32767, 32768, 40000}).Draw(t, label+"_rpre")
 		}
 	}
